@@ -21,6 +21,105 @@ def arm_blocks(fn, sw, targets):
     return fn.reach_from([0], cut_edges=cut)
 
 
+DS_CTORS = ('DiskSlice::from_sectors', 'DiskSlice::new')
+
+
+def _mirroring_switch(FS):
+    """block of the switch that tests mirroring_enabled() itself (possibly negated / copied), or bit 7 of the extended flags
+    tested inline - not something merely derived from it such as active_fat()"""
+    for bi in FS.reachable():
+        t = FS.blocks[bi]['term']
+        if t['k'] != 'switch':
+            continue
+        src = switch_source(FS, bi)
+        hit = False
+        if src and src['kind'] == 'call' and (src.get('callee') or '').endswith('::mirroring_enabled'):
+            hit = True
+        elif src and src['kind'] == 'unop':
+            pu = op_place(src['a'])
+            for b2, t2 in FS.calls():
+                if pu is not None and t2['dest']['l'] == pu['l'] and (t2.get('callee') or '').endswith('::mirroring_enabled'):
+                    hit = True
+        elif src and src['kind'] == 'binop' and src['op'] in ('Eq', 'Ne'):
+            d0 = Deps(FS, _summary_depth=3)
+            tk0 = d0.of_operand(src['a']) | d0.of_operand(src['b'])
+            hit = ('field', 'extended_flags') in tk0 and ('const', 0x80) in tk0 and ('op', 'BitAnd') in tk0
+        if hit:
+            return bi
+    return None
+
+
+def _field_read_of(fn, o, adt):
+    """name of the field of struct `adt` that the operand is a copy of, or None"""
+    from analyses import place_prefix_type
+    p = op_place(o)
+    for _ in range(8):
+        if p is None:
+            return None
+        if p['p'] and 'f' in p['p'][-1]:
+            owner = place_prefix_type(fn, p, len(p['p']) - 1)
+            if owner is not None and owner.get('k') == 'adt' and owner.get('path') == adt:
+                return p['p'][-1].get('n')
+            return None
+        defs = [s_['rv'] for bi in fn.reachable() for s_ in fn.blocks[bi]['stmts']
+                if s_['k'] == 'assign' and not s_['lhs']['p'] and s_['lhs']['l'] == p['l']]
+        if len(defs) != 1 or defs[0]['k'] not in ('use', 'cast'):
+            return None
+        p = op_place(defs[0]['a'])
+    return None
+
+
+def geometry_sites(facts):
+    """functions that choose the FAT region under the mirroring test, with the operands that carry (start, size, copies):
+    the arguments of a DiskSlice constructor, or the fields of a private struct the geometry is kept in"""
+    out = []
+    for FS in facts.fns.values():
+        if FS.crate != 'fatfs':
+            continue
+        sw = _mirroring_switch(FS)
+        if sw is None:
+            continue
+        after = FS.reach_from([sw])
+        ctor = [(b, t) for b, t in FS.calls() if (t.get('callee') or '').endswith(DS_CTORS) and b in after and len(t['args']) >= 3]
+        if ctor:
+            b, t = ctor[0]
+            out.append({'fn': FS, 'sw': sw, 'kind': 'constructor call', 'first': t['args'][0], 'count': t['args'][1],
+                        'mirrors': t['args'][2], 'span': t['span'], 'struct': None, 'blk': b})
+            continue
+        # an aggregate of a crate struct with one u8 field and two wider integer fields
+        d = Deps(FS)
+        for bi in sorted(after):
+            for s_ in FS.blocks[bi]['stmts']:
+                rv = s_['rv'] if s_['k'] == 'assign' else None
+                if rv is None or rv['k'] != 'agg' or rv.get('ak') != 'adt' or not (rv.get('adt') or '').startswith('fatfs::'):
+                    continue
+                a = facts.adts.get(rv['adt'])
+                if a is None or a.get('kind') != 'struct':
+                    continue
+                small, wide = [], []
+                for (fname, o), fd in zip(zip(rv.get('fields') or [], rv.get('ops') or []), a['variants'][0]['fields']):
+                    ty = FS.types[fd['ty']]
+                    if ty.get('k') == 'int' and ty.get('bits') == 8:
+                        small.append((fname, o))
+                    elif ty.get('k') == 'int' and ty.get('bits', 0) >= 32:
+                        wide.append((fname, o))
+                if len(small) != 1 or len(wide) != 2:
+                    continue
+                calls = lambda o_: {tk[1].rsplit('::', 1)[-1] for tk in d.of_operand(o_) if tk[0] == 'call'}
+                firsts = [w for w in wide if 'reserved_sectors' in calls(w[1])]
+                counts = [w for w in wide if 'reserved_sectors' not in calls(w[1])]
+                if len(firsts) != 1 or len(counts) != 1:
+                    continue
+                out.append({'fn': FS, 'sw': sw, 'kind': 'struct ' + rv['adt'], 'first': firsts[0][1], 'count': counts[0][1],
+                            'mirrors': small[0][1], 'span': s_['span'], 'blk': bi,
+                            'struct': (rv['adt'], {'first': firsts[0][0], 'count': counts[0][0], 'mirrors': small[0][0]})})
+                break
+            else:
+                continue
+            break
+    return out
+
+
 def run(ctx, rep):
     facts = ctx.facts
     # ---------------- R10.1
@@ -41,74 +140,66 @@ def run(ctx, rep):
         rep.machinery('FLOOR no table-writer instance in the call graph')
 
     # ---------------- R10.2
-    FS = facts.fns.get(FAT_SLICE)
-    if FS is None:
-        rep.machinery('ANCHOR-MISSING ' + FAT_SLICE)
-    else:
-        sw = None
-        for bi in FS.reachable():
-            t = FS.blocks[bi]['term']
-            if t['k'] == 'switch':
-                # the tested value is mirroring_enabled() itself (possibly negated / copied), or bit 7 of the extended
-                # flags tested inline - not something merely derived from it such as active_fat()
-                src = switch_source(FS, bi)
-                hit = False
-                if src and src['kind'] == 'call' and (src.get('callee') or '').endswith('::mirroring_enabled'):
-                    hit = True
-                elif src and src['kind'] == 'unop':
-                    pu = op_place(src['a'])
-                    for b2, t2 in FS.calls():
-                        if pu is not None and t2['dest']['l'] == pu['l'] and (t2.get('callee') or '').endswith('::mirroring_enabled'):
-                            hit = True
-                elif src and src['kind'] == 'binop' and src['op'] in ('Eq', 'Ne'):
-                    d0 = Deps(FS, _summary_depth=3)
-                    tk0 = d0.of_operand(src['a']) | d0.of_operand(src['b'])
-                    hit = ('field', 'extended_flags') in tk0 and ('const', 0x80) in tk0 and ('op', 'BitAnd') in tk0
-                if hit:
-                    sw = bi
-                    break
-        ctx.cache['r10_sw'] = sw
-        ctor = [(b, t) for b, t in FS.calls() if (t.get('callee') or '').endswith('DiskSlice::from_sectors')]
-        if len(ctor) != 1:
-            rep.machinery('ANCHOR fat_slice: DiskSlice::from_sectors call')
-        elif sw is None:
-            rep.oblige('R10.2', FAT_SLICE, ok=False, nontrivial=True)
-            rep.violation('R10.2', vkey('R10.2', FAT_SLICE, 'mirroring-switch', ''), FS.loc(FS.span),
-                          'FAT slice geometry: the number of copies written and the first sector are not selected by '
-                          'mirroring_enabled() (bit 7 of the extended flags): with mirroring disabled and active FAT 0 '
-                          'the inactive copies would be written too')
-        else:
-            t = FS.blocks[sw]['term']
-            cb, ct = ctor[0]
-            probs = []
-            for arm, tg in (('mirroring', nonzero_targets(t)), ('single', zero_targets(t))):
-                blocks = arm_blocks(FS, sw, tg)
-                d = Deps(FS, blocks)
-                first = d.of_operand(ct['args'][0])
-                mirrors = d.of_operand(ct['args'][2])
-                count = d.of_operand(ct['args'][1])
-                calls = lambda toks: {tk[1].rsplit('::', 1)[-1] for tk in toks if tk[0] == 'call'}
-                if arm == 'mirroring':
-                    if ('field', 'fats') not in mirrors:
-                        probs.append('with mirroring enabled the number of copies written does not come from bpb.fats')
-                    if 'active_fat' in calls(first):
-                        probs.append('with mirroring enabled the slice start depends on the active-FAT number (it must '
-                                     'start at the first FAT)')
-                    if 'reserved_sectors' not in calls(first):
-                        probs.append('with mirroring enabled the slice does not start right after the reserved sectors')
-                else:
-                    # (the exact count - constructor argument composed with the loop's own convention - is R10.7)
-                    if ('field', 'fats') in mirrors or not any(tk[0] == 'const' for tk in mirrors):
-                        probs.append('with mirroring disabled more than the one active copy is written')
-                    if not {'active_fat', 'sectors_per_fat', 'reserved_sectors'} <= calls(first):
-                        probs.append('with mirroring disabled the slice start is not reserved + active_fat * '
-                                     'sectors_per_fat')
-                if 'sectors_per_fat' not in calls(count):
-                    probs.append('the slice size is not sectors_per_fat')
-            rep.oblige('R10.2', FAT_SLICE, ok=not probs, nontrivial=True,
-                       sample={'fn': FAT_SLICE, 'arms_checked': ['mirroring', 'single'], 'problems': probs})
-            for pr in probs:
-                rep.violation('R10.2', vkey('R10.2', FAT_SLICE, pr[:40], ''), FS.loc(FS.span), 'FAT slice geometry: ' + pr)
+    sites = geometry_sites(facts)
+    ctx.cache['r10_sites'] = sites
+    if not sites:
+        FS = facts.fns.get(FAT_SLICE)
+        rep.oblige('R10.2', FAT_SLICE, ok=False, nontrivial=True)
+        rep.violation('R10.2', vkey('R10.2', FAT_SLICE, 'mirroring-switch', ''), FS.loc(FS.span) if FS else 'src/fs.rs',
+                      'FAT slice geometry: the number of copies written and the first sector are not selected by '
+                      'mirroring_enabled() (bit 7 of the extended flags): with mirroring disabled and active FAT 0 '
+                      'the inactive copies would be written too')
+    for G in sites:
+        FS, sw = G['fn'], G['sw']
+        t = FS.blocks[sw]['term']
+        probs = []
+        for arm, tg in (('mirroring', nonzero_targets(t)), ('single', zero_targets(t))):
+            blocks = arm_blocks(FS, sw, tg)
+            d = Deps(FS, blocks)
+            first = d.of_operand(G['first'])
+            mirrors = d.of_operand(G['mirrors'])
+            count = d.of_operand(G['count'])
+            calls = lambda toks: {tk[1].rsplit('::', 1)[-1] for tk in toks if tk[0] == 'call'}
+            if arm == 'mirroring':
+                if ('field', 'fats') not in mirrors:
+                    probs.append('with mirroring enabled the number of copies written does not come from bpb.fats')
+                if 'active_fat' in calls(first):
+                    probs.append('with mirroring enabled the slice start depends on the active-FAT number (it must '
+                                 'start at the first FAT)')
+                if 'reserved_sectors' not in calls(first):
+                    probs.append('with mirroring enabled the slice does not start right after the reserved sectors')
+            else:
+                # (the exact count - constructor argument composed with the loop's own convention - is R10.7)
+                if ('field', 'fats') in mirrors or not any(tk[0] == 'const' for tk in mirrors):
+                    probs.append('with mirroring disabled more than the one active copy is written')
+                if not {'active_fat', 'sectors_per_fat', 'reserved_sectors'} <= calls(first):
+                    probs.append('with mirroring disabled the slice start is not reserved + active_fat * '
+                                 'sectors_per_fat')
+            if 'sectors_per_fat' not in calls(count):
+                probs.append('the slice size is not sectors_per_fat')
+        # a geometry kept in a struct: every slice built from that struct takes start, size and copies from the matching fields
+        if G['struct'] is not None:
+            adt, roles = G['struct']
+            used = 0
+            for fn2 in facts.fns.values():
+                if fn2.crate != 'fatfs':
+                    continue
+                for b2, t2 in fn2.calls():
+                    if not (t2.get('callee') or '').endswith(DS_CTORS) or len(t2['args']) < 3:
+                        continue
+                    got = [_field_read_of(fn2, a, adt) for a in t2['args'][:3]]
+                    if not any(got):
+                        continue
+                    used += 1
+                    want = [roles['first'], roles['count'], roles['mirrors']]
+                    if got != want:
+                        probs.append('a slice is built from %s with fields %s where (start, size, copies) are %s' % (adt.rsplit('::', 1)[-1], got, want))
+            if not used:
+                probs.append('the geometry computed under the mirroring test is stored in %s but no slice is built from it' % adt)
+        rep.oblige('R10.2', FS.name, ok=not probs, nontrivial=True,
+                   sample={'fn': FS.name, 'arms_checked': ['mirroring', 'single'], 'sink': G['kind'], 'problems': probs})
+        for pr in probs:
+            rep.violation('R10.2', vkey('R10.2', FS.name, pr[:40], ''), FS.loc(FS.span), 'FAT slice geometry: ' + pr)
     for name, mask, what in (('fatfs::boot_sector::BiosParameterBlock::mirroring_enabled', 0x80, 'bit 7'),
                              ('fatfs::boot_sector::BiosParameterBlock::active_fat', 0x0F, 'bits 0-3')):
         fn = facts.fns.get(name)
@@ -394,35 +485,43 @@ def run_copies(ctx, rep):
         rep.oblige('R10.7', DS_WRITE + '|loop-form', ok=True, sample={'fn': DS_WRITE, 'note': 'loop form not recognised; count not decided'})
         return
     n = 0
+    fmt = lambda c: ('fats%+d' % c[1] if c[1] else 'fats') if c[0] == 1 else ('%d*fats%+d' % c if c[0] else '%d' % c[1])
+    gsites = ctx.cache.get('r10_sites') or []
+    judged = set()
+    work = []
+    for G in gsites:
+        fn, sw = G['fn'], G['sw']
+        tt = fn.blocks[sw]['term']
+        judged.add((fn.name, G['blk']))
+        work.append((fn, G['blk'], G['mirrors'], G['span'], 'mirroring', arm_blocks(fn, sw, nonzero_targets(tt)), (1, 0)))
+        work.append((fn, G['blk'], G['mirrors'], G['span'], 'single', arm_blocks(fn, sw, zero_targets(tt)), (0, 1)))
+    geo_structs = {G['struct'][0] for G in gsites if G['struct'] is not None}
     for fn in facts.fns.values():
         if fn.crate != 'fatfs':
             continue
-        sites = [(b, t) for b, t in fn.calls() if (t.get('callee') or '').endswith('DiskSlice::from_sectors') and len(t['args']) > 2]
-        for b, t in sites:
-            arms = [('any', set(fn.reachable()), None)]
-            if fn.name == FAT_SLICE and ctx.cache.get('r10_sw') is not None:
-                sw = ctx.cache['r10_sw']
-                tt = fn.blocks[sw]['term']
-                arms = [('mirroring', arm_blocks(fn, sw, nonzero_targets(tt)), (1, 0)),
-                        ('single', arm_blocks(fn, sw, zero_targets(tt)), (0, 1))]
-            for arm, blocks, want in arms:
-                v = _affine(fn, blocks, t['args'][2])
-                if v is None:
-                    rep.oblige('R10.7', '%s|bb%d|%s' % (fn.name, b, arm), ok=True, sample={'fn': fn.name, 'arm': arm, 'copies': 'not an affine function of bpb.fats'})
-                    continue
-                copies = (v[0], v[1] + extra)
-                if want is None:
-                    want = (0, 1)  # any other slice (the fixed root directory) is one region
-                ok = copies == want
-                n += 1
-                fmt = lambda c: ('fats%+d' % c[1] if c[1] else 'fats') if c[0] == 1 else ('%d*fats%+d' % c if c[0] else '%d' % c[1])
-                rep.oblige('R10.7', '%s|bb%d|%s' % (fn.name, b, arm), ok=ok, nontrivial=True,
-                           sample={'fn': fn.name, 'arm': arm, 'copies_written': fmt(copies), 'wanted': fmt(want)})
-                if not ok:
-                    rep.violation('R10.7', vkey('R10.7', fn.name, 'copies', arm), fn.loc(t['span']),
-                                  '%s (%s): the slice is constructed with mirrors = %s and the write loop of DiskSlice runs %s '
-                                  'times, so %s copies are written where the format wants %s' %
-                                  (fn.name, arm, fmt(v), 'mirrors + 1' if extra else 'mirrors', fmt(copies), fmt(want)))
+        for b, t in fn.calls():
+            if not (t.get('callee') or '').endswith(DS_CTORS) or len(t['args']) < 3 or (fn.name, b) in judged:
+                continue
+            if any(_field_read_of(fn, t['args'][2], adt) for adt in geo_structs):
+                continue  # copies come from the stored geometry: judged where that struct is built
+            if fn.name.endswith(DS_CTORS):
+                continue  # one constructor forwarding to the other
+            work.append((fn, b, t['args'][2], t['span'], 'any', set(fn.reachable()), (0, 1)))  # e.g. the fixed root directory
+    for fn, b, mop, span, arm, blocks, want in work:
+        v = _affine(fn, blocks, mop)
+        if v is None:
+            rep.oblige('R10.7', '%s|bb%d|%s' % (fn.name, b, arm), ok=True, sample={'fn': fn.name, 'arm': arm, 'copies': 'not an affine function of bpb.fats'})
+            continue
+        copies = (v[0], v[1] + extra)
+        ok = copies == want
+        n += 1
+        rep.oblige('R10.7', '%s|bb%d|%s' % (fn.name, b, arm), ok=ok, nontrivial=True,
+                   sample={'fn': fn.name, 'arm': arm, 'copies_written': fmt(copies), 'wanted': fmt(want)})
+        if not ok:
+            rep.violation('R10.7', vkey('R10.7', fn.name, 'copies', arm), fn.loc(span),
+                          '%s (%s): the slice is constructed with mirrors = %s and the write loop of DiskSlice runs %s '
+                          'times, so %s copies are written where the format wants %s' %
+                          (fn.name, arm, fmt(v), 'mirrors + 1' if extra else 'mirrors', fmt(copies), fmt(want)))
     rep.counts['R10.7.sites'] = n
 
 
